@@ -115,7 +115,7 @@ def expected : List (String × String × String × Nat × Expect) := [
   ("parser/lexer.go", "yyLex.refill", "call:SyntaxErrorf", 1, .errorChannel),
   ("parser/y.go", "applyTrailers", "panic:str", 1, .internalExplored),
   ("parser/y.go", "setCtx", "call:SyntaxErrorf", 2, .errorChannel),
-  ("parser/y.go", "yyParserImpl.Parse", "call:SyntaxError", 22, .errorChannel),
+  ("parser/y.go", "yyParserImpl.Parse", "call:SyntaxError", 25, .errorChannel),
   ("parser/y.go", "yyParserImpl.Parse", "panic:str", 2, .internalExplored),
   ("symtable/symtable.go", "NewSymTable", "recover:MakeException", 1, .recoverSite),
   ("symtable/symtable.go", "SymTable.AddDef", "call:panicSyntaxErrorf", 1, .syntaxPayload),
